@@ -26,6 +26,7 @@ type C10Scn struct {
 	Clock    int      `json:"clock_moves"`   // clock advances the scheduler may take
 	HooksLate bool    `json:"hooks_late,omitempty"`   // the hooks are assigned after Refresh, not before
 	ConLayout string  `json:"console_layout,omitempty"` // sync/async: a second reference to a Console appender with this layout
+	Dyn      bool     `json:"dynamic_level,omitempty"` // sync: an application-defined logger whose level is set after Refresh (it enables everything while Refresh runs)
 	Overflow bool     `json:"overflow,omitempty"`  // async logger (Discard policy) driven into overflow first: records emitted afterwards still carry exactly their own call's hook results
 	RefLevel string   `json:"ref_level,omitempty"` // sync/async: the only reference carries a level of its own (what the appender accepts is not what the logger enables)
 	Rolling  bool     `json:"rolling_ref,omitempty"` // sync/async: one more reference, to a RollingFile appender (a component with a clock of its own)
@@ -80,9 +81,16 @@ func (c10) Gen(rt *rapid.T, thorough bool) any {
 	s.ConLayout = rapid.SampledFrom([]string{"", "JSONLayout", "TextLayout"}).Draw(rt, "con_layout")
 	s.Rolling = rapid.IntRange(0, 3).Draw(rt, "rolling_ref") == 0
 	s.Overflow = rapid.IntRange(0, 9).Draw(rt, "overflow10") == 0
+	s.Dyn = s.Mode == "sync" && rapid.IntRange(0, 3).Draw(rt, "dyn_level") == 0
+	if s.Dyn {
+		s.ConLayout, s.Rolling = "", false
+	}
 	if rapid.IntRange(0, 3).Draw(rt, "ref_level") == 0 {
 		s.RefLevel = rapid.SampledFrom([]string{"INFO", "WARN~FATAL", "ERROR", "debug~info"}).Draw(rt, "ref_level_v")
 		s.ConLayout, s.Rolling = "", false
+		if s.Dyn {
+			s.RefLevel = ""
+		}
 	}
 	return s
 }
@@ -188,12 +196,16 @@ func (c c10) Run(x *Exec, scn any) {
 		spec := &SysSpec{Style: s.Style, Props: map[string]string{},
 			Apps: []AppSpec{{Name: "rec", Type: "Rec"}},
 			Logs: []LogSpec{{Name: "lg", Type: typ, Tags: []string{"hook_*"}, Level: s.Level, Refs: []RefSpec{{Ref: "rec", Level: s.RefLevel}}}}}
-		if s.ConLayout != "" {
+		if s.Dyn {
+			spec.Apps = []AppSpec{{Name: "unused", Type: "Discard"}}
+			spec.Logs = []LogSpec{{Name: "lg", Type: "RecLogger", Tags: []string{"hook_*"}, RecName: "rec"}}
+		}
+		if s.ConLayout != "" && !s.Dyn {
 			// a second reference with the same (absent) bounds: both receive every enabled event
 			spec.Apps = append(spec.Apps, AppSpec{Name: "con", Type: "Console", Layout: s.ConLayout})
 			spec.Logs[0].Refs = append(spec.Logs[0].Refs, RefSpec{Ref: "con"})
 		}
-		if s.Rolling {
+		if s.Rolling && !s.Dyn {
 			x.FS.MkdirAll("/logs")
 			spec.Apps = append(spec.Apps, AppSpec{Name: "roll", Type: "RollingFile", FileDir: "/logs", FileName: "c10.log", Rotation: "h", MaxAge: 100000})
 			spec.Logs[0].Refs = append(spec.Logs[0].Refs, RefSpec{Ref: "roll"})
@@ -208,6 +220,16 @@ func (c c10) Run(x *Exec, scn any) {
 			return
 		}
 		lr, _ = modelRange(s.Level)
+		if s.Dyn {
+			// the serving logger's level is what it answers when asked, now
+			dynMu.Lock()
+			dl := dynLoggers["rec"]
+			dynMu.Unlock()
+			if dl == nil {
+				panic("harness: the application-defined logger was not started")
+			}
+			dl.SetLevel(levelRangeOf(lr))
+		}
 		if s.HooksLate {
 			// hooks are plain package variables: assigning them after Refresh must work as well
 			installHooks(s.TimeHook, s.StrHook, s.FldHook)
